@@ -46,7 +46,7 @@ def replay(name, first_bad):
         return kit.concrete_replay("C17", ["hessian"])
     if name.startswith("idxs"):
         return kit.concrete_replay("C17", ["index_validation"])
-    return kit.concrete_replay("C17", ["substitution", "substitution_after_non_tensor", "products"])
+    return kit.concrete_replay("C17", ["substitution", "object_only_substitution", "substitution_after_non_tensor", "products"])
 
 
 def _jh():
@@ -184,6 +184,25 @@ def unit_products(kind, ypos=0):
             kit.prove_vec(c, "after_substitution_mv_is_J(new_point)_u", ju2, u.v.apply(JN + "@%s" % pt2))
             kit.prove_vec(c, "after_substitution_rmv_is_JT(new_point)_g", jtg2, g.v.apply(JN + "@%s^H" % evs[1]["pt"]))
             c.check("new_point_differs_from_construction_point", pt2 != pt0)
+        # substitution of the object's tensors ONLY (argument and explicit parameters stay): the cached graph belongs to
+        # the old object tensors and must not be served - the products are those at the new object tensors
+        if objt:
+            th4 = [st.vec("theta4", (3,), (0,), requires_grad=True) for _ in objt]
+            n4 = len(log)
+            with J.uselinopparams(*((y, p, *th4))):
+                with (st.enable_grad() if grad_mode else st.no_grad()):
+                    ok4, ju4 = kit.call_or_fail(c, "after_substituting_only_the_object_tensors_mv_is_J(new_point)_u", lambda: J.mv(u))
+                    ok5, jtg4 = kit.call_or_fail(c, "after_substituting_only_the_object_tensors_rmv_is_JT(new_point)_g", lambda: J.rmv(g))
+                evs4 = log[n4:]
+            if ok4 and ok5:
+                okev = len(evs4) == 2 and all(e["theta"] is th4[0] and e["args"][0] is y and e["args"][2] is p and e["grad"] for e in evs4)
+                c.check("function_reevaluated_when_only_the_object_tensors_are_substituted", okev, detail="%d evaluations" % len(evs4))
+                if okev:
+                    kit.prove_vec(c, "after_substituting_only_the_object_tensors_mv_is_J(new_point)_u", ju4, u.v.apply(JN + "@%s" % evs4[0]["pt"]))
+                    kit.prove_vec(c, "after_substituting_only_the_object_tensors_rmv_is_JT(new_point)_g", jtg4,
+                                  g.v.apply(JN + "@%s^H" % evs4[1]["pt"]))
+                    c.check("object_only_substitution_is_a_different_point", evs4[0]["pt"] != pt0)
+            c.check("object_tensors_restored_after_the_object_only_substitution", obj.theta is objt[0])
         # back at the original parameters straight after a substitution by a different point: the products are those of
         # the original point again (a graph built for the temporary point must not be served)
         n2a = len(log)
